@@ -49,7 +49,7 @@ TECHNIQUE = "runtime monitoring: independent layout model over generated tables"
 
 def gen_case(rng, big=False):
     counts = (0, 1, 2, 3, 5, 8, 13) if not big else (0, 1, 2, 3, 5, 8, 13, 30, 52, 70)
-    recs = T.gen_records(rng, counts)
+    recs = T.gen_records(rng, counts, sgr_data=True)
     fmt, cols, limits = T.gen_fmt(rng, allow_hidden=True)
     lim_arg = None
     if limits is None and rng.random() < 0.25:
@@ -84,7 +84,7 @@ def gen_case(rng, big=False):
     return dict(fmt2=fmt2, cols2=cols2, limits2=limits2, fail_first=rng.random() < 0.12 and later is None, bounded=bounded, centered=centered, shape=shape, rec_fmt_first=rng.random() < 0.25, recs=recs, fmt=fmt, cols=cols, limits=limits, lim_arg=lim_arg, header=header, footer=footer,
                 titles=titles, later=later, grow_by=rng.choice([1, 1, -1]),
                 new_bounds=[(rng.choice([0, 1, 2, 3]), rng.choice([3, 4, 6, 9, 30])) for _ in range(3)],
-                extra_recs=T.gen_records(rng, (1, 3, 6)))
+                extra_recs=T.gen_records(rng, (1, 3, 6), sgr_data=True))
 
 
 def rng_free_len(c):
